@@ -221,6 +221,27 @@ def analyse(prog):
             else:
                 rec('dependencies.exact', 'discharged')
 
+    # ---- answers are values, not views (concrete frame condition, not a solver verdict): editing a returned set
+    # must not change later answers of any query on the same statements
+    try:
+        before = {str(s): sorted(map(str, P.dependencies(s))) for s in assigned}
+        for s in assigned:
+            P.dependencies(s).clear()
+        for st in stmts:
+            st.rhs_symbols.clear()
+            st.free_symbols.clear()
+        P.free_symbols.clear()
+        after = {str(s): sorted(map(str, P.dependencies(s))) for s in assigned}
+        P2 = Statements(list(stmts))
+        after2 = {str(s): sorted(map(str, P2.dependencies(s))) for s in assigned}
+        if before != after or before != after2:
+            rec('answers_are_values', 'violated', before=before, after=after, after_rebuild=after2,
+                kind='editing a returned set changed later answers')
+        else:
+            rec('answers_are_values', 'discharged')
+    except Exception as e:  # noqa
+        rec('answers_are_values', 'violated', error=f'{type(e).__name__}: {e}', kind='internal error')
+
     # ---- remove_symbol_definitions ---------------------------------------------------------------------------
     Z = Expr.symbol('Z')
     for k, st in enumerate(stmts):
